@@ -92,6 +92,26 @@ func canonValues(g *Gen, perType int) []*Val {
 	for _, k := range keyedTypes() {
 		vs = append(vs, g.msgWithKey(k.Ty, k.E, true))
 	}
+	// two levels of discriminators: a frame whose body has an extension table of its own, once per extension key
+	for _, ft := range schema.Types {
+		if ft.Frame == nil {
+			continue
+		}
+		for _, e := range schema.Tables[ft.Frame.Tbl].Entries {
+			bt := schema.Types[e.Ty]
+			for _, bop := range bt.fieldOps() {
+				if bop.K != "union" {
+					continue
+				}
+				for _, ie := range schema.Tables[bop.Tbl].Entries {
+					fv := g.msgWithKey(ft.ID, e, true)
+					fv.Fs[len(ft.Frame.Hdr)+1] = g.msgWithKey(bt.ID, ie, true)
+					vs = append(vs, fv)
+				}
+				break
+			}
+		}
+	}
 	// the zero value of every type without a discriminator (all-zero numbers, empty text and lists) is canonical too,
 	// and so is a message whose nested value-structs are all zero
 	for _, t := range schema.Types {
@@ -419,4 +439,35 @@ func parseOpTokens(toks []string) (op Op, rest []string, ok bool) {
 		return
 	}
 	return op, toks[n:], true
+}
+
+// lengthenText gives every length-prefixed text of a message (recursively) at least eleven bytes: a reader that fails on a
+// cut text WITHOUT consuming what is left of it leaves enough bytes behind for whatever is read next to succeed
+func lengthenText(v *Val) {
+	if v == nil || v.K != 'm' {
+		return
+	}
+	for i, op := range schema.Types[v.Ty].fieldOps() {
+		if i >= len(v.Fs) || v.Fs[i] == nil {
+			continue
+		}
+		switch op.K {
+		case "vstr":
+			if len(v.Fs[i].S) < 8 {
+				v.Fs[i] = &Val{K: 's', S: []byte("truncate-me")}
+			}
+		case "vstrs":
+			if len(v.Fs[i].Ss) == 0 {
+				v.Fs[i] = &Val{K: 'S', Ss: [][]byte{[]byte("truncate-me")}}
+			} else if last := len(v.Fs[i].Ss) - 1; len(v.Fs[i].Ss[last]) < 8 {
+				v.Fs[i].Ss[last] = []byte("truncate-me")
+			}
+		case "nested", "union":
+			lengthenText(v.Fs[i])
+		case "objs":
+			for _, e := range v.Fs[i].Fs {
+				lengthenText(e)
+			}
+		}
+	}
 }
